@@ -41,6 +41,12 @@ Inductive odcall :=
 | OcWrite | OcDelete | OcRead | OcReadOptions | OcExists | OcStat | OcLister
 | OcEarlyReturn        (* a `return` statement *)
 | OcOther.
+(* likewise the directory backend's read-side methods and remove: every file-system call and
+   every `return`, in source order (write_bytes has its own table, wstep) *)
+Inductive lbfn := LReadFull | LReadPartial | LList | LSizes | LRemove.
+Inductive lbcall :=
+| LcFsRead | LcFileOpen | LcSeek | LcReadExact | LcWalkDir | LcExists | LcMetadata | LcIsFile | LcParseSome
+| LcRemoveFile | LcCommand | LcReturn | LcOther.
 (* layers wrapped around the operator in OpenDALBackend::new *)
 Inductive odlayer := LRetry | LThrottle | LConcurrentLimit | LLogging | LOther.
 
